@@ -62,7 +62,7 @@ def _variant_seeds(cls):
     except ImportError:
         return []
     try:
-        return list(textgen.accepted_texts(lib.ref_of(cls), 12, 20240917))
+        return list(textgen.accepted_texts(lib.ref_of(cls), 48, 20240917))
     except Exception:  # pylint: disable=broad-except
         return []
 
